@@ -422,9 +422,18 @@ func c13Menu() []c13op {
 		b2 := append(make([]byte, 0, 48), be32(prfR(seed, "c13", 6))...)
 		b3 := append(make([]byte, 0, 80), be32(prfR(seed, "c13", 8))...)
 		b3 = append(b3, 1, 2, 3, 4, 5, 6, 7, 8) // a 40-byte little-endian string
-		return []interface{}{&b1, &b2, &b3}, func() string {
+		// short strings that are the front part of a larger buffer whose remaining bytes are not zero
+		big64 := bytes.Repeat([]byte{0xA5}, 64)
+		b4, b5 := big64[:20:64], big64[32:33:64]
+		return []interface{}{&b1, &b2, &b3, &b4, &b5}, func() string {
 			var x, y, z, w fr.Element
 			var u, v fr.Element
+			var s1, s2, s3, s4 fr.Element
+			s1.SetBytesLE(b4)
+			s2.SetBytes(b4)
+			_, _ = s3.SetBytesLECanonical(b4)
+			s4.SetBytesLE(b5)
+			defer func() { _ = frsDigest([]fr.Element{s1, s2, s3, s4}) }()
 			u.SetBytesLE(b3)
 			v.SetBytes(b3)
 			_, _ = u.SetBytesLECanonical(b3)
@@ -437,11 +446,57 @@ func c13Menu() []c13op {
 	})
 	add("SqrtPrecomp / GetPointFromX", func(c *ipa.IPAConfig, seed int64) ([]interface{}, func() string, func() string) {
 		v := fpFromBig(bi(1234567 * 1234567))
+		v2 := fpFromBig(bi(7654321 * 7654321))
 		x := fpFromBig(bi(4))
-		return []interface{}{&v, &x}, func() string {
+		return []interface{}{&v, &v2, &x}, func() string {
+			// results are kept by the caller across later calls
 			r := fp.SqrtPrecomp(&v)
 			p := bandersnatch.GetPointFromX(&x, true)
-			return dg(r != nil, p != nil)
+			r2 := fp.SqrtPrecomp(&v2)
+			p2 := bandersnatch.GetPointFromX(&v2, false)
+			var sq, sq2 fp.Element
+			if r != nil {
+				sq.Square(r)
+			}
+			if r2 != nil {
+				sq2.Square(r2)
+			}
+			s := ""
+			if p != nil {
+				s = p.X.String() + p.Y.String()
+			}
+			return dg(r != nil, p != nil, p2 != nil, sq.Equal(&v), sq2.Equal(&v2), s)
+		}, none
+	})
+	add("degenerate batches: zeros in fr.BatchInvert (ends and middle, 300 values), a zero-valued Element in the batch codecs", func(c *ipa.IPAConfig, seed int64) ([]interface{}, func() string, func() string) {
+		v := make([]fr.Element, 300)
+		for i := range v {
+			if i%3 == 1 {
+				v[i] = frFromBig(bi(int64(i + 5)))
+			}
+		}
+		v = slackFr(v)
+		a := reprOf(c.SRS[21], reprProj)
+		var zero banderwagon.Element
+		list := []*banderwagon.Element{&a, &zero, &a}
+		return []interface{}{&v, &list}, func() string {
+			inv := fr.BatchInvert(v)
+			res := []*fr.Element{new(fr.Element), new(fr.Element), new(fr.Element)}
+			err := banderwagon.BatchMapToScalarField(res, list)
+			err2 := banderwagon.BatchNormalize([]*banderwagon.Element{&zero})
+			return dg(frsDigest(inv), err != nil, err2 != nil)
+		}, none
+	})
+	add("fr comparisons and predicates on caller elements (LexicographicallyLargest, Cmp, IsZero, IsUint64, Legendre, Equal), repeated", func(c *ipa.IPAConfig, seed int64) ([]interface{}, func() string, func() string) {
+		xs := slackFr(frsFromBig([]*big.Int{bi(1), bi(2), new(big.Int).Sub(bigR, bi(1)), new(big.Int).Sub(bigR, bi(2)), prfR(seed, "c13", 11), new(big.Int).Rsh(bigR, 1)}))
+		return []interface{}{&xs}, func() string {
+			out := ""
+			for round := 0; round < 2; round++ {
+				for i := range xs {
+					out += fmt.Sprint(xs[i].LexicographicallyLargest(), xs[i].Cmp(&xs[(i+1)%len(xs)]), xs[i].IsZero(), xs[i].IsUint64(), xs[i].Legendre(), xs[i].Equal(&xs[0]))
+				}
+			}
+			return dg(out, frsDigest(xs))
 		}, none
 	})
 	return ops
